@@ -382,6 +382,9 @@ def _svgp(case, ctx, g):
     lik = gpytorch.likelihoods.GaussianLikelihood(batch_shape=torch.Size(pb))
     util.randomize(m, g, 0.4)
     util.randomize(lik, g, 0.4)
+    if case.get("x_at_z"):
+        Zm = m.variational_strategy.inducing_points.detach()  # (the inducing locations are parameters: moved by randomize)
+        X = Zm.expand(*torch.broadcast_shapes(Zm.shape[:-2], torch.Size(db)), M_, D).clone()
     for mod in m.modules():
         if hasattr(mod, "variational_params_initialized"):
             mod.variational_params_initialized.fill_(1)
